@@ -17,6 +17,7 @@ def layouts(thorough):
         ('single-partial', [dict(window=(t(1), t(4)), tests=lite)]),
         ('covering-and-empty', [dict(window=(None, None), tests=lite), dict(window=(t(2), t(2)), tests=lite)]),
         ('empty-then-covering', [dict(window=(t(2), t(2)), tests=lite), dict(window=(t(0), t(9)), tests=lite)]),
+        ('two-half-open', [dict(window=(None, t(2)), tests=lite), dict(window=(t(2), None), tests={'a': ['gross', 'roc'], 'b': ['flat']})]),
         ('three-contexts', [dict(window=(None, t(1)), tests=lite), dict(window=(t(1), t(4)), tests=lite), dict(window=(t(4), None), tests=lite)]),
         # stream b is configured only in a context whose window is empty: it still gets its (entirely uncovered) result
         ('empty-window-only-for-b', [dict(window=(t(0), t(3)), tests={'a': ['gross', 'spike']}), dict(window=(t(2), t(2)), tests={'b': ['flat']})]),
@@ -55,16 +56,25 @@ def run(ck):
     it = r.interp
     results_mod = it.module('ioos_qc.results')
     collect = results_mod.globals['collect_results']
+    from fractions import Fraction as Fr
     tables = [('all-axes', Table(5, missing={'a': {2}})), ('time-only', Table(5, missing={'a': {2}}, with_axes=('time',))),
-              ('unsorted-times', Table(5, missing={'a': {2}}, time_order=[2, 0, 4, 1, 3]))]
+              ('unsorted-times', Table(5, missing={'a': {2}}, time_order=[2, 0, 4, 1, 3])),
+              # instants off the whole second, time given to NumpyStream as epoch seconds (floats); windows that end between two stamps
+              ('sub-second-epoch', Table(5, missing={'a': {2}}, time_offset=Fr(3, 4), time_carrier='epoch_float'))]
+    half = Fr(1, 2)
+    lite = {'a': ['gross', 'spike'], 'b': ['valid']}
+    frac_layouts = [('sub-second-edges', [dict(window=(t(0), t(2, half)), tests=lite), dict(window=(t(2, half), t(5)), tests=lite)]),
+                    ('sub-second-gap', [dict(window=(t(0, half), t(1, half)), tests=lite), dict(window=(t(3, half), t(4, half)), tests=lite)])]
     for tname, table in tables:
-        for lname, contexts in layouts(thorough):
+        for lname, contexts in (layouts(thorough) if tname != 'sub-second-epoch' else frac_layouts):
             if tname == 'unsorted-times':
                 # flat_line_test derives its window from the median time step, which is meaningless for unsorted rows
                 contexts = [dict(c, tests={sid: ['valid' if k == 'flat' else k for k in keys] for sid, keys in c['tests'].items()}) for c in contexts]
             src = make_config_source(contexts)
             expected = expected_direct(r, table, contexts)
             for fe in ('numpy', 'pandas'):
+                if tname == 'sub-second-epoch' and fe != 'numpy':
+                    continue
                 run0 = run_frontend(r, fe, table, src)
                 label0 = f'{fe}[{lname}; {tname}]'
                 if run0.error is not None:
